@@ -152,6 +152,9 @@ def honest(sc, label, chunk=0, script="A"):
 
 
 def make_cases(ctx):
+    for ending in ("abrupt", "orderly"):
+        for opt in ("default", "strict", "ignore"):
+            yield "http-%s-%s" % (ending, opt), dict(http=[ending, opt])
     names = QUICK_SC if ctx.quick else [s.name for s in flavours.ALL]
     stride = ctx.pick(3, 1)
     rng = ctx.case_rng("plan")
@@ -242,7 +245,8 @@ def make_cases(ctx):
         # alerts from a key-holding peer and orderly-close variants
         for who in ("client", "server"):
             for what in ("fatal:40", "fatal:80", "fatal:20", "warn:90",
-                         "warn:41", "close_notify_early", "alert_then_eof"):
+                         "warn:41", "warn:100", "close_notify_early",
+                         "alert_then_eof"):
                 for at in ("handshake", "data"):
                     yield "%s-alert-%s-%s-%s" % (name, who, what, at), dict(
                         sc=name, label=label, alert=what, who=who, at=at)
@@ -673,6 +677,14 @@ def run_alert(ctx, cid, P):
                 "undocumented"):
             ctx.violation(dict(key, clause="undocumented_exception",
                                exc=type(vt.exc).__name__), W, repr(vt.exc))
+        elif at == "data" and vt.status == "done" and not vt.result and \
+                b"after-alert" not in bytes(W.get("got", b"")):
+            # the stream ended as if the peer had closed it in an orderly
+            # way, but no close_notify was sent: data after the alert is
+            # silently cut off
+            ctx.violation(dict(key, clause="warning_alert_taken_for_close"),
+                          W, "read returned %r after a warning alert %d; "
+                          "closed=%s" % (vt.result, desc, victim.closed))
     if vt.status == "exc":
         post_state(ctx, key, W, vname, victim, vsock, p.link)
     ctx.cell("cell", "%s|alert|%s|%s|%s|%s" % (sc.name, what, at, vname,
@@ -793,7 +805,108 @@ def run_close(ctx, cid, P):
     ctx.cell("cell", "%s|close|%s|ok" % (sc.name, var))
 
 
+def run_http(ctx, cid, P):
+    """the integration layer's HTTPS client (tlslite.integration.
+    HTTPTLSConnection, which XMLRPCTransport builds on) reading a body that
+    is delimited by the end of the connection: a transport that ends without
+    close_notify must surface as the abrupt-close error unless the caller
+    opted out, an orderly end gives the whole body"""
+    import threading
+    from tlslite import TLSConnection
+    from tlslite.integration.httptlsconnection import HTTPTLSConnection
+    from vt import creds
+    ending, opt = P["http"]
+    # http.client sets TCP options on its socket: a loopback TCP pair
+    lst = socket.socket(socket.AF_INET, socket.SOCK_STREAM)
+    try:
+        lst.bind(("127.0.0.1", 0))
+        lst.listen(1)
+        a = socket.create_connection(lst.getsockname(), timeout=30)
+        b, _ = lst.accept()
+    except OSError as e:
+        # recorded, not a verdict: the family needs a loopback interface
+        ctx.count("http_no_loopback")
+        return
+    finally:
+        lst.close()
+    a.settimeout(30)
+    b.settimeout(30)
+    body = b"0123456789" * 40
+    res = {}
+
+    def server():
+        try:
+            conn = TLSConnection(b)
+            chain, key_ = creds.server("rsa")
+            conn.handshakeServer(certChain=chain, privateKey=key_)
+            req = b""
+            while b"\r\n\r\n" not in req:
+                r = conn.read(max=4096, min=1)
+                if not r:
+                    break
+                req += r
+            conn.write(b"HTTP/1.0 200 OK\r\nContent-Type: text/plain"
+                       b"\r\n\r\n" + body)
+            if ending == "orderly":
+                conn.close()
+            else:
+                b.close()           # no close_notify
+            res["server"] = "ok"
+        except Exception as e:   # noqa
+            res["server"] = repr(e)
+            try:
+                b.close()
+            except Exception:   # noqa
+                pass
+    t = threading.Thread(target=server)
+    t.daemon = True
+    t.start()
+    kw = {} if opt == "default" else {"ignoreAbruptClose": opt == "ignore"}
+    out = exc = None
+    try:
+        h = HTTPTLSConnection("localhost", 4443, **kw)
+        h._create_connection = lambda *x, **y: a
+        h.request("GET", "/")
+        resp = h.getresponse()
+        out = resp.read()
+    except Exception as e:   # noqa
+        exc = e
+    t.join(30)
+    try:
+        a.close()
+    except Exception:   # noqa
+        pass
+    ctx.ev()
+    ctx.count("http_runs")
+    key = {"site": "integration.HTTPTLSConnection", "ending": ending,
+           "option": opt}
+    W = {"case": cid, "server": res.get("server"), "exc": repr(exc),
+         "got_len": None if out is None else len(out)}
+    if res.get("server") != "ok":
+        ctx.inconc("http harness server failed: %r" % (res.get("server"),))
+        return
+    if ending == "orderly" or opt == "ignore":
+        if exc is not None or out != body:
+            ctx.violation(dict(key, clause="orderly_close_reported_as_failure"
+                               if ending == "orderly" else
+                               "ignore_abrupt_not_honoured"), W,
+                          "whole body expected, got %r / %r" % (
+                              exc, None if out is None else len(out)))
+    else:
+        if not isinstance(exc, E.TLSAbruptCloseError):
+            ctx.violation(dict(key, clause="truncation_not_reported"), W,
+                          "the transport ended without close_notify and "
+                          "the caller did not opt out: got %r / %r bytes" % (
+                              exc, None if out is None else len(out)))
+        else:
+            ctx.count("http_truncation_reported")
+    ctx.cell("cell", "http|%s|%s|%s" % (ending, opt,
+                                       type(exc).__name__ if exc else "ok"))
+
+
 def run_case(ctx, cid, P):
+    if "http" in P:
+        return run_http(ctx, cid, P)
     if P.get("ctl"):
         sc = flavours.BY_NAME[P["sc"]]
         p, pc, ps, tc, ts = honest(sc, P["label"], P.get("chunk", 0),
@@ -837,6 +950,9 @@ def finalize(m, tier):
     if c.get("cache_entry_checked_after_fatal", 0) == 0:
         out.append("no cached session checked after a fatal alert on a "
                    "resumed connection")
+    if c.get("http_runs", 0) and c.get("http_truncation_reported", 0) < 2:
+        out.append("integration HTTPS client: truncation never observed "
+                   "as reported")
     if c.get("reused_objects", 0) < 9:
         out.append("fewer than 9 second sessions on re-used connection "
                    "objects")
